@@ -1,6 +1,7 @@
 import Flowjaxv.Proofs.ArgCheck
 import Flowjaxv.Proofs.CtorsGen
 import Flowjaxv.Proofs.WrapperGen
+import Flowjaxv.Proofs.BnafInitGen
 /-!
 # C13 — malformed inputs are rejected, never silently broadcast
 
@@ -721,5 +722,34 @@ theorem gen_wrapper_instances :
     unwrapCheckAndCast rec_ ⟨[3], none⟩ (.arr [3]) .notArrayLike = .ok (⟨[3], none⟩, .arr [3], .none) := by decide
 
 end WrapperGen
+
+section BnafInitGen
+open BnafInitPf
+
+/-- **`BlockAutoregressiveNetwork.__init__` (GENERATED, `Gen/BnafInitGen.lean`) raises exactly the documented `ValueError`**: for every
+key, `dim`, `cond_dim`, `depth`, `block_dim`, inverter, world and every scalar type, the constructor fails iff `activation` is an
+`AbstractBijection` whose declared `shape` is not `()` or whose `cond_shape` is not `None`, and the exception is then `ValueError`
+(never the `ValueError` of `zip(…, strict=True)` nor the `IndexError` of `layers_and_log_jac_fns[0]`); `None`, a scalar
+unconditional bijection and a callable always construct. -/
+theorem gen_bnaf_init_raises_iff {K α : Type} [Add α] [Sub α] [Mul α] [Div α] [Neg α] [LT α] [LE α] [BEq α]
+    [OfNat α 0] [OfNat α 1] [OfNat α 2] [OfNat α 4] [OfScientific α] [DecidableLT α] [DecidableLE α] [Transc α] [Inhabited α]
+    (W : Bw.World K α) (IW : Bw.InitWorld K α) (key : K) (dim : Nat) (cond_dim : Option Nat) (depth bd : Nat)
+    (activation : Option (Bw.ActArg α)) (inverter : Option (List α → Option (List α) → List α)) (e : Bw.PyErr) :
+    GenBnafInit.init W IW key dim cond_dim depth bd activation inverter = .error e
+      ↔ e = .valueError ∧ ∃ b, activation = some (.bijection b) ∧ (b.shape ≠ [] ∨ b.cond_shape ≠ none) :=
+  gen_init_raises_iff W IW key dim cond_dim depth bd activation inverter e
+
+/-- non-vacuity, both directions, on concrete arguments (`Int` scalars are not available to `Transc`; the world is irrelevant to the
+verdict): a bijection of shape `(2,)` and a conditional scalar bijection are rejected, `None` is accepted. -/
+theorem gen_bnaf_init_raises_instance {K α : Type} [Add α] [Sub α] [Mul α] [Div α] [Neg α] [LT α] [LE α] [BEq α]
+    [OfNat α 0] [OfNat α 1] [OfNat α 2] [OfNat α 4] [OfScientific α] [DecidableLT α] [DecidableLE α] [Transc α] [Inhabited α]
+    (W : Bw.World K α) (IW : Bw.InitWorld K α) (key : K) (m : Bw.ActBij α) :
+    GenBnafInit.init W IW key 3 none 2 2 (some (.bijection ⟨[2], none, m⟩)) none = .error .valueError ∧
+    GenBnafInit.init W IW key 3 (some 1) 0 2 (some (.bijection ⟨[], some [1], m⟩)) none = .error .valueError ∧
+    (∃ N, GenBnafInit.init W IW key 3 none 2 2 (some (.bijection ⟨[], none, m⟩)) none = .ok N) ∧
+    (∃ N, GenBnafInit.init W IW key 3 none 2 2 none none = .ok N) := by
+  refine ⟨?_, ?_, ?_, ?_⟩ <;> rw [gen_init_eq] <;> simp [resolveAct, Except.map]
+
+end BnafInitGen
 
 end C13
